@@ -479,6 +479,8 @@ package core
 //@       rv_valid(in[k + ite(method_passctx(typeof(method), ival(method)), 1, 0)]) &&
 //@       rv_src_t(in[k + ite(method_passctx(typeof(method), ival(method)), 1, 0)]) == typeof(args[k]) &&
 //@       rv_src_v(in[k + ite(method_passctx(typeof(method), ival(method)), 1, 0)]) == ival(args[k]))
+//@   loop 3 ensures [nil_becomes_the_zero_value_of_its_own_parameter_type] !old(rv_valid(in[i])) && (type_variadic(ival(ft)) || i < type_numin(ival(ft))) ==>
+//@       rv_valid(in[i]) && rv_type(in[i]) == ite(type_variadic(ival(ft)) && i >= type_numin(ival(ft)) - 1, type_elem(type_in(ival(ft), type_numin(ival(ft)) - 1)), type_in(ival(ft), i))
 //@   loop 4 invariant [results_so_far] 0 <= i && i <= n && n <= len(out) && len(result) == i && forall(k, 0, i, typeof(result[k]) == rv_src_t(out[k]) && ival(result[k]) == rv_src_v(out[k]))
 //@   ensures [published_function_is_called_exactly_once] !method_missing(typeof(method), ival(method)) ==> ghost.rcalls == old(ghost.rcalls) + 1
 //@   ensures_panic [never_called_twice] ghost.rcalls <= old(ghost.rcalls) + 1
@@ -531,3 +533,21 @@ package core
 //@   ensures [transport_error_is_returned_and_nothing_is_decoded] ghost.cenc_err == nil && ghost.ret_err != nil ==> same(err, ghost.ret_err) && result == nil && ghost.cdec == old(ghost.cdec)
 //@   ensures [decodes_exactly_the_response_received] ghost.cenc_err == nil && ghost.ret_err == nil ==> ghost.cdec == old(ghost.cdec) + 1 && same(ghost.cdec_in, ghost.ret_response)
 //@   ensures [returns_what_the_codec_decoded] ghost.cenc_err == nil && ghost.ret_err == nil ==> same(result, ghost.cdec_out) && same(err, ghost.cdec_err)
+
+// how a published function is described: its trailing result is its error exactly when that
+// result's type implements error (any error type, not only the interface itself)
+//@ func makeMethod
+//@   prop C08
+//@   havoc
+//@   ensures [trailing_error_result_is_recognised_by_interface] result.returnError == (type_numout(ival(t)) > 0 &&
+//@       type_implements(type_out(ival(t), type_numout(ival(t)) - 1), ival(errorType)))
+
+// a proxy call: the caller's declared result types are those of THIS proxy method, on every call
+//@ func (invocation).Invoke
+//@   prop C08
+//@   havoc
+//@   flag typeassert=panic
+//@   loop 1 invariant 0 <= i && len(clientContext.ReturnType) == n && clientContext != nil && forall(k, 0, i, ival(clientContext.ReturnType[k]) == type_out(ival(t), k))
+//@   atcall InvokeContext [declared_result_types_are_this_methods] clientContext != nil &&
+//@       len(clientContext.ReturnType) == type_numout(ival(t)) - ite(type_numout(ival(t)) > 0 && ival(clientContext.ReturnType[type_numout(ival(t)) - 1]) == ival(errorType), 1, 0) &&
+//@       forall(k, 0, len(clientContext.ReturnType), ival(clientContext.ReturnType[k]) == type_out(ival(t), k))
